@@ -32,8 +32,8 @@ decided by the source (exactly one of the two families is applicable at any time
 namespace Abverif.Uri
 open Abverif.Rx
 
-/-- `cs! "a.b"` is the explicit character list `['a', '.', 'b']` -/
-macro:max "cs!" s:str : term => do
+/-- `chs! "a.b"` is the explicit character list `['a', '.', 'b']` -/
+macro:max "chs!" s:str : term => do
   let cs := s.getString.toList
   let elems := cs.toArray.map fun c => Lean.Syntax.mkCharLit c
   `([$elems,*])
@@ -414,7 +414,7 @@ theorem lang_uriShape (md : Mode) (C : CClass) (hdot : C.contains '.' = false) (
       | nil => exact lang_opt.2 (.inl rfl)
       | cons c cs' => exact lang_opt.2 (.inr (lang_plus_cls.2 ⟨by simp, List.all_eq_true.2 hb⟩))
 
-example : Rx.Lang (uriShape .lastEmpty ⟨false, [.range 'a' 'z']⟩) (cs! "ab.c.") :=
+example : Rx.Lang (uriShape .lastEmpty ⟨false, [.range 'a' 'z']⟩) (chs! "ab.c.") :=
   (lang_uriShape .lastEmpty ⟨false, [.range 'a' 'z']⟩ (by decide) _).2 (by decide)
 
 /-- the Spec only looks at characters of the text -/
@@ -671,10 +671,10 @@ theorem uri_equiv_partial (strict ae ale : Bool) (s : List Char)
   rw [matches_of_no_trailing_newline hnl]
   exact body_matchesFull_eq_spec strict ae ale s (fun c hc hu hdc => hdg hu c hc hdc)
 
-example : check true false false (cs! "com.example.topic_1") = Spec.ok true false false (cs! "com.example.topic_1") :=
+example : check true false false (chs! "com.example.topic_1") = Spec.ok true false false (chs! "com.example.topic_1") :=
   uri_equiv_partial true false false _ (by decide) (by decide)
 
-example : check false true false (cs! "com..é٣.x") = Spec.ok false true false (cs! "com..é٣.x") :=
+example : check false true false (chs! "com..é٣.x") = Spec.ok false true false (chs! "com..é٣.x") :=
   uri_equiv_partial false true false _ (by decide) (by intro h; revert h; decide)
 
 /-- exact characterisation including the `$` quirk: with `$`, a text is accepted iff it, or it minus one trailing
@@ -697,7 +697,7 @@ theorem uri_check_exact (strict ae ale : Bool) (s : List Char)
     rw [matches_dollar ha, h1, h2]
     simp
 
-example : check true false false (cs! "a.b") = true ∧ check true false false (cs! "a..b") = false := by
+example : check true false false (chs! "a.b") = true ∧ check true false false (chs! "a..b") = false := by
   rw [uri_check_exact true false false _ (by decide), uri_check_exact true false false _ (by decide)]; decide
 
 theorem mem_joinDot : ∀ (cs : List (List Char)) (last : List Char) (c : Char),
@@ -774,7 +774,7 @@ theorem uri_sound_up_to_f2 (strict ae ale : Bool) (s : List Char) (h : check str
     rw [Classical.not_imp] at hnl
     exact ⟨hnl.1, Classical.not_not.1 hnl.2⟩
 
-example : check false false true (cs! "com.myapp.") = true := uri_complete false false true _ (by decide)
+example : check false false true (chs! "com.myapp.") = true := uri_complete false false true _ (by decide)
 
 /-- after the fix (`\Z`, no `\d`) the full statement holds; today the hypotheses are false -/
 theorem uriEquiv_of_fixed (strict ae ale : Bool) (ha : (pat strict ae ale).anchor = .absEnd)
@@ -794,7 +794,7 @@ theorem uriEquiv_loose_of_absEnd (ae ale : Bool) (ha : (pat false ae ale).anchor
 /-- F2a: while the anchor is `$`, "a.b\n" is accepted by every one of the six patterns, against the grammar -/
 theorem f2_trailing_newline_witness (strict ae ale : Bool) :
     (pat strict ae ale).anchor = .dollar →
-      check strict ae ale (cs! "a.b\n") = true ∧ Spec.ok strict ae ale (cs! "a.b\n") = false := by
+      check strict ae ale (chs! "a.b\n") = true ∧ Spec.ok strict ae ale (chs! "a.b\n") = false := by
   cases strict <;> cases ae <;> cases ale <;> decide
 
 /-- F2b: while the strict class mentions `\d`, "a.٣" (ARABIC-INDIC DIGIT THREE) is accepted in strict mode -/
@@ -944,7 +944,7 @@ theorem custom_attr_equiv_partial (s : List Char)
     (contains_eq_spec caFirst_ok (fun c h => lowerChar_high h) (fun h => by rw [caFirst_noDigit] at h; cases h))
     (contains_eq_spec caRest_ok strictChar_high hdg)
 
-example : customAttr (cs! "x_my_attr1") = CustomAttr.Spec.ok (cs! "x_my_attr1") :=
+example : customAttr (chs! "x_my_attr1") = CustomAttr.Spec.ok (chs! "x_my_attr1") :=
   custom_attr_equiv_partial _ (by decide) (by decide)
 
 theorem customAttrEquiv_of_fixed (ha : _CUSTOM_ATTRIBUTE.anchor = .absEnd) (hu : caRest.usesDigit = false) :
@@ -955,7 +955,7 @@ theorem customAttrEquiv_of_fixed (ha : _CUSTOM_ATTRIBUTE.anchor = .absEnd) (hu :
   · intro h; rw [hu] at h; cases h
 
 theorem f2_custom_attr_newline_witness : _CUSTOM_ATTRIBUTE.anchor = .dollar →
-    customAttr (cs! "x_\n") = true ∧ CustomAttr.Spec.ok (cs! "x_\n") = false := by decide
+    customAttr (chs! "x_\n") = true ∧ CustomAttr.Spec.ok (chs! "x_\n") = false := by decide
 
 theorem f2_custom_attr_digit_witness : caRest.usesDigit = true →
     customAttr ['x', '_', 'a', '٣'] = true ∧ CustomAttr.Spec.ok ['x', '_', 'a', '٣'] = false := by decide
@@ -1018,7 +1018,7 @@ theorem realm_name_equiv_partial (s : List Char)
     (contains_eq_spec nameFirst_ok alphaChar_high (fun h => by rw [nameFirst_noDigit] at h; cases h))
     (contains_eq_spec nameRest_ok realmChar_high hdg)
 
-example : realmName (cs! "realm-1.example@x") = Realm.Spec.name (cs! "realm-1.example@x") :=
+example : realmName (chs! "realm-1.example@x") = Realm.Spec.name (chs! "realm-1.example@x") :=
   realm_name_equiv_partial _ (by decide) (by decide)
 
 theorem realmNameEquiv_of_fixed (ha : _URI_PAT_REALM_NAME.anchor = .absEnd) (hu : nameRest.usesDigit = false) :
@@ -1029,7 +1029,7 @@ theorem realmNameEquiv_of_fixed (ha : _URI_PAT_REALM_NAME.anchor = .absEnd) (hu 
   · intro h; rw [hu] at h; cases h
 
 theorem f2_realm_name_newline_witness : _URI_PAT_REALM_NAME.anchor = .dollar →
-    realmName (cs! "abc\n") = true ∧ Realm.Spec.name (cs! "abc\n") = false := by decide
+    realmName (chs! "abc\n") = true ∧ Realm.Spec.name (chs! "abc\n") = false := by decide
 
 theorem f2_realm_name_digit_witness : nameRest.usesDigit = true →
     realmName ['a', 'b', '٣'] = true ∧ Realm.Spec.name ['a', 'b', '٣'] = false := by decide
@@ -1075,8 +1075,8 @@ theorem realm_eth_equiv_partial (s : List Char)
   rw [h1]
   exact ethWith_congr (contains_eq_spec ethHex_ok hexChar_high hdg)
 
-example : realmEth (cs! "0x52908400098527886E0F7030069857D2E4169EE7")
-    = Realm.Spec.eth (cs! "0x52908400098527886E0F7030069857D2E4169EE7") :=
+example : realmEth (chs! "0x52908400098527886E0F7030069857D2E4169EE7")
+    = Realm.Spec.eth (chs! "0x52908400098527886E0F7030069857D2E4169EE7") :=
   realm_eth_equiv_partial _ (by decide) (by decide)
 
 theorem realmEthEquiv_of_fixed (ha : _URI_PAT_REALM_NAME_ETH.anchor = .absEnd) (hu : ethHex.usesDigit = false) :
@@ -1087,12 +1087,12 @@ theorem realmEthEquiv_of_fixed (ha : _URI_PAT_REALM_NAME_ETH.anchor = .absEnd) (
   · intro h; rw [hu] at h; cases h
 
 theorem f2_realm_eth_newline_witness : _URI_PAT_REALM_NAME_ETH.anchor = .dollar →
-    realmEth (cs! "0x52908400098527886E0F7030069857D2E4169EE7\n") = true ∧
-      Realm.Spec.eth (cs! "0x52908400098527886E0F7030069857D2E4169EE7\n") = false := by decide +kernel
+    realmEth (chs! "0x52908400098527886E0F7030069857D2E4169EE7\n") = true ∧
+      Realm.Spec.eth (chs! "0x52908400098527886E0F7030069857D2E4169EE7\n") = false := by decide +kernel
 
 theorem f2_realm_eth_digit_witness : ethHex.usesDigit = true →
-    realmEth (cs! "0x52908400098527886E0F7030069857D2E4169EE٣") = true ∧
-      Realm.Spec.eth (cs! "0x52908400098527886E0F7030069857D2E4169EE٣") = false := by decide +kernel
+    realmEth (chs! "0x52908400098527886E0F7030069857D2E4169EE٣") = true ∧
+      Realm.Spec.eth (chs! "0x52908400098527886E0F7030069857D2E4169EE٣") = false := by decide +kernel
 
 /-! ### ENS name: 2..250 of `[a-z0-9_\-@.]` then ".eth"; reverse: "eth." then 2..250 of the same -/
 
@@ -1183,10 +1183,10 @@ theorem realm_ens_reverse_equiv_partial (s : List Char)
   rw [h1]
   exact ensReverseWith_congr (contains_eq_spec ensRevClass_ok ensChar_high hdg)
 
-example : realmEns (cs! "my-realm_1.eth") = Realm.Spec.ens (cs! "my-realm_1.eth") :=
+example : realmEns (chs! "my-realm_1.eth") = Realm.Spec.ens (chs! "my-realm_1.eth") :=
   realm_ens_equiv_partial _ (by decide) (by decide)
 
-example : realmEnsReverse (cs! "eth.my-realm_1") = Realm.Spec.ensReverse (cs! "eth.my-realm_1") :=
+example : realmEnsReverse (chs! "eth.my-realm_1") = Realm.Spec.ensReverse (chs! "eth.my-realm_1") :=
   realm_ens_reverse_equiv_partial _ (by decide) (by decide)
 
 theorem realmEnsEquiv_of_fixed (ha : _URI_PAT_REALM_NAME_ENS.anchor = .absEnd) (hu : ensClass.usesDigit = false) :
@@ -1204,14 +1204,14 @@ theorem realmEnsReverseEquiv_of_fixed (ha : _URI_PAT_REALM_NAME_ENS_REVERSE.anch
   · intro h; rw [hu] at h; cases h
 
 theorem f2_realm_ens_newline_witness : _URI_PAT_REALM_NAME_ENS.anchor = .dollar →
-    realmEns (cs! "ab.eth\n") = true ∧ Realm.Spec.ens (cs! "ab.eth\n") = false := by decide
+    realmEns (chs! "ab.eth\n") = true ∧ Realm.Spec.ens (chs! "ab.eth\n") = false := by decide
 
 theorem f2_realm_ens_digit_witness : ensClass.usesDigit = true →
     realmEns ['a', '٣', '.', 'e', 't', 'h'] = true ∧ Realm.Spec.ens ['a', '٣', '.', 'e', 't', 'h'] = false := by
   decide
 
 theorem f2_realm_ens_reverse_newline_witness : _URI_PAT_REALM_NAME_ENS_REVERSE.anchor = .dollar →
-    realmEnsReverse (cs! "eth.ab\n") = true ∧ Realm.Spec.ensReverse (cs! "eth.ab\n") = false := by decide
+    realmEnsReverse (chs! "eth.ab\n") = true ∧ Realm.Spec.ensReverse (chs! "eth.ab\n") = false := by decide
 
 theorem f2_realm_ens_reverse_digit_witness : ensRevClass.usesDigit = true →
     realmEnsReverse ['e', 't', 'h', '.', 'a', '٣'] = true ∧
